@@ -22,6 +22,8 @@ def check(chk):
     r84(chk, m)
     r85(chk, m)
     r86(chk, m)
+    from . import shared
+    shared.cache_rules(chk, m, 'R8.7')
     chk.decline('the numbers of a whole generated document (running computation over the document history)')
 
 
